@@ -148,6 +148,7 @@ def pipeline(a: int, b: int, c: int, n: int, d1: int, d2: int, d3: int) -> None:
     """
     hlib.enter(locals())
     hlib.assume(hlib.deep() or n <= 3)
+    hlib.assume(n <= 3 or hlib.PARAM["pipe"] != 35)          # (the pipeline with shuffle: symbolic draws x list length)
     n = hlib.concrete(n, 0, 5)
     l = [a, b, c, a, b][:n]
     nn = [[a], [b, c]]
